@@ -311,8 +311,8 @@ pub fn def() -> PropDef {
         rule: "slow_world: case index walks socket kind (PUB/XPUB) x stall pattern of the first victim {accept k bytes then stall (k around the 128 KiB mark), stall/resume between messages a and b, never drain, broken pipe after message a, co-operative yields}; message sizes drawn from a grid around 128 KiB; one healthy subscriber; memory_world: one stalled subscriber, 50..149 further messages, heap growth measured by a counting allocator; non-trivial = the run reached its judgement; distinct = distinct (plan, schedule, transport) hashes",
         assumptions: &["'accepts every write' = the subscriber's pipe never answers Pending to a write (short writes allowed)", "memory bound asserted: 2 x (128 KiB + message size) + 64 KiB of live heap growth, independent of the number of messages published"],
         strata: vec![
-            Stratum { name: "slow_world", quick: 30_000, thorough: 300_000, exhaustive: (false, false), run: slow_world, what: "publisher completion, healthy subscriber complete, victim stream = prefix of an ordered subsequence" },
-            Stratum { name: "memory_world", quick: 4_000, thorough: 40_000, exhaustive: (false, false), run: memory_world, what: "heap growth while publishing to a stalled subscriber" },
+            Stratum { name: "slow_world", quick: 30_000, thorough: (300_000) * 4, exhaustive: (false, false), run: slow_world, what: "publisher completion, healthy subscriber complete, victim stream = prefix of an ordered subsequence" },
+            Stratum { name: "memory_world", quick: 4_000, thorough: (40_000) * 4, exhaustive: (false, false), run: memory_world, what: "heap growth while publishing to a stalled subscriber" },
         ],
     }
 }
